@@ -218,6 +218,15 @@ def gen_flag_subsets():
             if flags & B.FLAG_ADMIN:
                 b['blocks'][-1]['data'] = admin_payload(mask % 3)
             yield ('flags=0x%06x k%d' % (flags, kind), b)
+            if flags & B.FLAG_ADMIN and flags & B.FLAG_IS_FRAGMENT:
+                # a real fragment of an administrative record: its payload is a slice of the record
+                whole = admin_payload(mask % 3)
+                for (name, part, off) in (('head', whole[:len(whole) // 2], 0), ('tail', whole[len(whole) // 2:], len(whole) // 2)):
+                    f = _copy(b)
+                    f['blocks'][-1]['data'] = part
+                    f['primary']['frag_offset'] = off
+                    f['primary']['total_adu'] = len(whole)
+                    yield ('flags=0x%06x k%d admin-record-%s' % (flags, kind, name), f)
 
 
 def gen_product():
